@@ -392,6 +392,20 @@ def cls_value_features(C: dict, v: dict) -> list:
     return sorted(set(out))
 
 
+def _tag_renamed(T) -> bool:
+    """does T hold a tagged union one of whose variants spells its tag field differently in data"""
+    if isinstance(T, dict):
+        if T.get('k') == 'tagged':
+            for v in T['vars']:
+                for f in v.get('fs', []):
+                    if f['n'] == T['tag'] and f['out'] != T['tag']:
+                        return True
+        return any(_tag_renamed(x) for x in T.values())
+    if isinstance(T, list):
+        return any(_tag_renamed(x) for x in T)
+    return False
+
+
 def signature(clause: str, c: Case, ev: dict) -> dict:
     out = ev.get('out')
     if c.bf is not None:
@@ -404,6 +418,8 @@ def signature(clause: str, c: Case, ev: dict) -> dict:
     lay = _tagged_layout(c.T)
     if lay:
         sig['tagged'] = lay
+        if _tag_renamed(c.T):
+            sig['tag_renamed'] = 'T'
     if c.T['k'] in ('dict', 'defaultdict', 'ordereddict', 'counter') and _contains_kind(c.T['kt'], ('set', 'frozenset')):
         sig['key_contains_set'] = 'T'
     if c.T['k'] == 'cls':
